@@ -54,6 +54,10 @@ def bind_like(spec, dataset):
     if spec["conv"] == "arakawa":
         from emsarray.conventions.arakawa_c import ArakawaC
         return ArakawaC(dataset, coordinate_names=specs.arakawa_coordinate_names())
+    if spec.get("decoy_latlon"):
+        # a dataset that holds two latitude / longitude pairs is bound by naming its
+        # coordinates, before and after
+        return specs.construct_convention(spec, dataset)
     return dataset.ems
 
 
